@@ -413,8 +413,15 @@ fn inflect_toks(rng: &mut Rng, toks: &[TokSpec]) -> Vec<TokSpec> {
 /// are what a cache keyed too coarsely, or a buffer reused across calls, confuses.
 pub fn variant_of(rng: &mut Rng, c: &Call) -> Call {
     let mut v = c.clone();
-    match rng.below(10) {
+    match rng.below(12) {
         0 => v.concrete = !v.concrete,
+        10 | 11 => {
+            // the very same call through another language (same type when both are the facade)
+            v.lang = (c.lang + 1 + rng.below(6)) % 7;
+            if rng.chance(1, 2) {
+                v.concrete = false;
+            }
+        }
         1 => v.crash_at = if c.crash_at == 0 { rng.range(1, 20) as u64 } else { 0 },
         2 => {
             let t = (*rng.pick(&THRESHOLDS)).to_string();
